@@ -4,9 +4,15 @@ import (
 	"context"
 	"encoding/json"
 	"fmt"
+	"io"
+	"net"
+	"net/http"
+	"sync"
 	"time"
 
+	"github.com/ansible/receptor/pkg/backends"
 	"github.com/ansible/receptor/pkg/netceptor"
+	"github.com/gorilla/websocket"
 
 	"verifharness/vx"
 )
@@ -113,6 +119,87 @@ func execC07(b []byte) vx.Verdict {
 			_, _ = cb.Write(b)
 		}
 		hcut = func() { cb.Close(); ca.Close() }
+	} else if s.Transport == "tcp" || s.Transport == "udp" || s.Transport == "ws" {
+		// the real listeners of pkg/backends on loopback; the hostile end is a plain socket / websocket client
+		port := freeTCPPort()
+		addr := fmt.Sprintf("127.0.0.1:%d", port)
+		var be netceptor.Backend
+		var berr error
+		switch s.Transport {
+		case "tcp":
+			be, berr = backends.NewTCPListener(addr, nil, sut.N.Logger)
+		case "udp":
+			be, berr = backends.NewUDPListener(addr, sut.N.Logger)
+		default:
+			be, berr = backends.NewWebsocketListener(addr, nil, sut.N.Logger, nil, nil)
+		}
+		if berr != nil {
+			return vx.Inconclusive("backend: %v", berr)
+		}
+		if err := sut.N.AddBackend(be, netceptor.BackendConnectionCost(1)); err != nil {
+			return vx.Inconclusive("add backend: %v", err)
+		}
+		time.Sleep(100 * time.Millisecond)
+		switch s.Transport {
+		case "tcp":
+			c, err := net.DialTimeout("tcp", addr, 5*time.Second)
+			if err != nil {
+				return vx.Inconclusive("dial: %v", err)
+			}
+			go func() { _, _ = io.Copy(io.Discard, c) }()
+			hsend = func(b []byte, raw bool) {
+				if !raw {
+					if len(b) > 65535 {
+						b = b[:65535]
+					}
+					b = vx.Frame(b)
+				}
+				_ = c.SetWriteDeadline(time.Now().Add(5 * time.Second))
+				_, _ = c.Write(b)
+			}
+			hcut = func() { c.Close() }
+		case "udp":
+			c, err := net.Dial("udp", addr)
+			if err != nil {
+				return vx.Inconclusive("dial: %v", err)
+			}
+			go func() { _, _ = io.Copy(io.Discard, c) }()
+			hsend = func(b []byte, raw bool) {
+				if len(b) > 60000 {
+					b = b[:60000]
+				}
+				_, _ = c.Write(b)
+			}
+			hcut = func() { c.Close() }
+		default:
+			h := http.Header{}
+			h.Set("origin", "http://127.0.0.1")
+			c, _, err := websocket.DefaultDialer.Dial("ws://"+addr+"/", h)
+			if err != nil {
+				return vx.Inconclusive("ws dial: %v", err)
+			}
+			go func() {
+				for {
+					if _, _, err := c.ReadMessage(); err != nil {
+						return
+					}
+				}
+			}()
+			var wmu sync.Mutex
+			hsend = func(b []byte, raw bool) {
+				wmu.Lock()
+				defer wmu.Unlock()
+				_ = c.SetWriteDeadline(time.Now().Add(5 * time.Second))
+				if raw {
+					// websocket-level oddities instead of stream framing: text frames, pings with payload
+					_ = c.WriteMessage(websocket.TextMessage, b)
+					_ = c.WriteMessage(websocket.PingMessage, b[:minInt(len(b), 100)])
+					return
+				}
+				_ = c.WriteMessage(websocket.BinaryMessage, b)
+			}
+			hcut = func() { c.Close() }
+		}
 	} else {
 		be := vx.NewMemBackend()
 		if err := sut.N.AddBackend(be, netceptor.BackendConnectionCost(1)); err != nil {
@@ -247,3 +334,19 @@ func pingUntil(n *netceptor.Netceptor, target string, d time.Duration) string {
 }
 
 func init() { vx.Register("C07", execC07) }
+
+func freeTCPPort() int {
+	l, err := net.Listen("tcp", "127.0.0.1:0")
+	if err != nil {
+		return 0
+	}
+	defer l.Close()
+	return l.Addr().(*net.TCPAddr).Port
+}
+
+func minInt(a, b int) int {
+	if a < b {
+		return a
+	}
+	return b
+}
